@@ -855,7 +855,7 @@ class Machine:
             self.out.stats["probe:export_empty"] += 1
         if len(set(c[0] for c in cells)) > 1:
             self.out.stats["probe:export_multilevel"] += 1
-        if len(s.r.demoted) > 0:
+        if len(getattr(s.r, "demoted", ())) > 0:        # (coverage probe only)
             self.out.stats["probe:export_after_demote"] += 1
 
     def op_write_reg(self):
@@ -902,11 +902,8 @@ class Machine:
         if r2.maxdepth != s.r.maxdepth:
             self._viol("mim-depth", "reloaded .mim has maxdepth %r, saved %r" % (r2.maxdepth, s.r.maxdepth))
             raise _Stop()
-        a = dict((d, set(int(x) if _is_int_valued(x) else x for x in v)) for d, v in s.r.pixeldict.items() if v)
-        b = dict((d, set(int(x) if _is_int_valued(x) else x for x in v)) for d, v in r2.pixeldict.items() if v)
-        if a != b:
-            self._viol("mim-content", "reloaded .mim stores different pixels than the saved region")
-            raise _Stop()
+        # (only the public behaviour is compared -- depth, deepest-level pixel set, area, membership answers --, not
+        #  the internal multi-resolution representation, which an implementation is free to normalise on load)
         probs = observe(Slot(r2, s.maxdepth, s.model), self.ch, probes=3)
         if probs:
             self._viol("mim-" + probs[0][0], "reloaded .mim: " + probs[0][1])
